@@ -281,6 +281,19 @@ def sample(ctx, budget=1.0, hint=None, broken=None):
                     bp[3] = bp[0] - 3 * bp[1] + 3 * bp[2] + lam * d   # -p0 + 3p1 - 3p2 + p3 = lam d
                 bz_ = P.QuadraticBezier(*bp) if len(bp) == 3 else P.CubicBezier(*bp)
                 a, b = (ln, bz_) if ka == 'line' else (bz_, ln)
+        if not lattice and 'quad' in (ka, kb) and r.random() < 0.35:
+            # a quadratic whose equation along the line is ALMOST linear (tiny but nonzero leading coefficient) with generic float
+            # coordinates: control point at the chord midpoint up to 0 .. 1e-9 of the chord, or the parabola's axis parallel to the line
+            ln, bz_ = (a, b) if ka == 'line' else (b, a)
+            p0_, p2_ = bz_.start, bz_.end
+            how_ = r.choice(['midpoint', 'midpoint', 'axis'])
+            if how_ == 'midpoint':
+                p1_ = (p0_ + p2_) / 2 + 1j * (p2_ - p0_) * r.choice([0.0, 1e-13, 1e-12, -3e-12, 1e-10, 1e-9])
+            else:
+                d_ = ln.end - ln.start
+                p1_ = (p0_ + p2_ - r.choice([0.5, -0.7, 1.3]) * d_) / 2
+            bz_ = P.QuadraticBezier(p0_, p1_, p2_)
+            a, b = (ln, bz_) if ka == 'line' else (bz_, ln)
         if r.random() < 0.3 and not lattice:
             # a long chord through the wiggle
             ln = P.Line(complex(-1.2 * scale, r.uniform(-0.15, 0.15) * scale), complex(1.2 * scale, r.uniform(-0.15, 0.15) * scale))
@@ -373,6 +386,10 @@ def sample(ctx, budget=1.0, hint=None, broken=None):
         n_paths += 1
         try:
             got = p1.intersect(p2, **tol_kw)
+            if r.random() < 0.3:
+                got_again = p1.intersect(p2, **tol_kw)
+                if len(got_again) != len(got):
+                    fail('Path.intersect/not repeatable', 'the same Path.intersect call, repeated, reports a different number of crossings', info, repr(len(got_again)), repr(len(got)), rep)
         except Exception as e:
             fail('Path.intersect/raises %s' % type(e).__name__, 'Path.intersect raised on paths in general position', info, repr(e)[:200],
                  '%d crossings' % len(expected), rep)
